@@ -936,6 +936,44 @@ func invariantFor(s Sym, p *ssa.Phi) bool {
 // edge; on back edges the goal itself may be used as induction hypothesis.
 // All other symbols of r must be invariant with respect to the phi.
 func (e *Engine) phiSplit(r Lin, depth int) (bool, string) {
+	// the builtins min and max: the result is one of the arguments, and in each case that argument
+	// is the least (greatest) of them
+	for s := range r.T {
+		call, ok := s.K.(*ssa.Call)
+		if !ok || s.Len {
+			continue
+		}
+		b, ok := call.Call.Value.(*ssa.Builtin)
+		if !ok || (b.Name() != "min" && b.Name() != "max") {
+			continue
+		}
+		if _, _, isInt := intInfo(call.Type()); !isInt {
+			continue
+		}
+		base := e.FactsAt(call.Block(), kit.InstrIndex(call))
+		all := true
+		for k, a := range call.Call.Args {
+			rk := r.Add(Var(s).Scale(-r.T[s])).Add(e.Lin(a).Scale(r.T[s]))
+			facts := append([]Fact{}, base...)
+			for j, o := range call.Call.Args {
+				if j == k {
+					continue
+				}
+				d := e.Lin(o).Sub(e.Lin(a)) // min: other - this >= 0
+				if b.Name() == "max" {
+					d = e.Lin(a).Sub(e.Lin(o))
+				}
+				facts = append(facts, Fact{d, "case: " + b.Name() + " picks argument " + fmt.Sprint(k)})
+			}
+			if ok, _ := e.prove(rk, facts, depth+1); !ok {
+				all = false
+				break
+			}
+		}
+		if all {
+			return true, "case analysis over the arguments of " + b.Name() + "()"
+		}
+	}
 	for s := range r.T {
 		ph, ok := s.K.(*ssa.Phi)
 		if !ok || s.Len {
